@@ -59,3 +59,17 @@ func TestSmokeUCIWorld(t *testing.T) {
 		}
 	}
 }
+
+func TestRootsValid(t *testing.T) {
+	if err := validateCurated(); err != nil {
+		t.Fatal(err)
+	}
+	rng := newRng(7)
+	for _, c := range rootClasses {
+		for i := 0; i < 300; i++ {
+			r := genRoot(rng, c)
+			g := r.Game()
+			_ = g
+		}
+	}
+}
